@@ -809,5 +809,8 @@ seed("c13-shared-error-mutated", "C13", "R-smtperror-not-mutated", "conn.go",
 seed("c11-keyword-case", "C11", "R-args-single-equals", "parse.go",
 """			argMap[strings.ToUpper(m[0])] = m[1]""", """			argMap[m[0]] = m[1]""", "lower-case parameter keyword treated as unknown")
 
+seed("c12-mechanism-case", "C12", "R-cmd-gates-agree", "conn.go",
+"	mechanism := strings.ToUpper(parts[0])", "	mechanism := parts[0]", "advertised mechanism refused when spelled in lower case")
+
 json.dump(S, open(os.path.join(os.path.dirname(os.path.abspath(__file__)), "bank.json"), "w"), indent=1)
 print(len(S), "seeds")
